@@ -254,7 +254,7 @@ def r5_formatters(rep, facts):
                        stubs={'len': n_elems, 'is_empty': n_elems == 0, 'decor_mut': ('opaque',), 'iter_mut': tuple(('item', i) for i in range(n_elems)),
                               'get_values': tuple((('k', i), ('v', i)) for i in range(n_elems))})
         try:
-            it.val(bb['body'], {pn[0]: ('struct', ty, fields), pn[1]: ('struct', 'node', {}), '@assign': {}})
+            it.run_body(bb, {pn[0]: ('struct', ty, fields), pn[1]: ('struct', 'node', {}), '@assign': {}})
         except EvalPanic:
             pass
         return [(nm, tuple(x for x in args if isinstance(x, (str, bool, int)))) for nm, args in it.calls if not nm.startswith('visit_')]
